@@ -1397,7 +1397,55 @@ fn render_ids(ids: &[(usize, u32)]) -> String {
 
 // ------------------------------------------------------------------------------------------------
 
+/// `--freshq <file>`: answer ONE query in this (brand-new) process on a brand-new database.
+/// File: first line `<kind> <fid> <arg>`, then one line `<fid> <hex text>` per file.  Prints
+/// `h=<hash of the canonical dump>` (or `panic`).  Used by checks/c13.py to compare sampled answers
+/// of the long-running harness process with a process that has no history at all (so that state
+/// outside the `Database` object, which an in-process fresh database would share, is seen too).
+fn run_freshq(path: &str) -> i32 {
+    let Ok(text) = std::fs::read_to_string(path) else {
+        eprintln!("cannot read {path}");
+        return 2;
+    };
+    let mut lines = text.lines();
+    let head: Vec<&str> = lines.next().unwrap_or("").split_whitespace().collect();
+    if head.len() != 3 {
+        eprintln!("bad request head");
+        return 2;
+    }
+    let Some(kind) = KINDS.iter().copied().find(|k| k.name() == head[0]) else {
+        eprintln!("bad kind");
+        return 2;
+    };
+    let (Ok(fid), Ok(arg)) = (head[1].parse::<u32>(), head[2].parse::<u32>()) else {
+        eprintln!("bad numbers");
+        return 2;
+    };
+    let mut db = Database::new();
+    for l in lines {
+        let w: Vec<&str> = l.split_whitespace().collect();
+        if w.len() != 2 {
+            continue;
+        }
+        let Ok(id) = w[0].parse::<u32>() else {
+            return 2;
+        };
+        let Ok(t) = String::from_utf8(crate::util::unhex(w[1])) else {
+            return 2;
+        };
+        db.set_source_text(FileId(id), t);
+    }
+    match catch_unwind(AssertUnwindSafe(|| ask(&db, kind, FileId(fid), arg, false).dump(&ident))) {
+        Ok(d) => println!("h={:016x}", fnv(&d)),
+        Err(_) => println!("panic"),
+    }
+    0
+}
+
 pub fn run(args: &Args) -> i32 {
+    if let Some(path) = args.extra.get("freshq") {
+        return run_freshq(path);
+    }
     let mut out = Out::new();
     let steps = args.extra_usize("steps", 25);
     let proj_every = args.extra_usize("projevery", 5).max(2) as u64;
